@@ -10,7 +10,7 @@ use xot::{Entry, NameId, NamespaceId, Node, PrefixId, Xot};
 
 pub struct C11;
 
-const ATTR_KEYS: &[(&str, &str)] = &[("", "k1"), ("", "k2"), ("urn:A", "k1"), ("", "k3")];
+const ATTR_KEYS: &[(&str, &str)] = &[("", "k1"), ("", "k2"), ("urn:A", "k1"), ("http://www.w3.org/XML/1998/namespace", "id")];
 const NS_KEYS: &[&str] = &["", "p", "q", "r"];
 /// size of the key pools in "wide" histories (maps that grow past 16 / 32 entries)
 const WIDE_POOL: usize = 40;
@@ -32,7 +32,7 @@ fn ns_key(i: usize) -> String {
 }
 /// the last entry (no namespace) is only ever paired with the empty prefix: xmlns=""
 const URIS: &[&str] = &["urn:A", "urn:B", "urn:C", ""];
-const VALS: &[&str] = &["", "v", "w", "x y", "<&>"];
+const VALS: &[&str] = &["", "v", "w", "x y", "<&>", " a  b ", "v "];
 
 #[derive(Clone, Debug, PartialEq)]
 struct AEntry {
